@@ -33,7 +33,10 @@ static Call call(const Reg& r, const std::vector<double>& x, int mode, const std
   // sentinel: a recognisable NaN payload so that "left unset" is distinguishable from a computed NaN is not needed: both are NaN
   arglist al; memset(&al, 0, sizeof al);
   al.n = n; al.nr = n; al.ra = ra.data(); al.derivs = mode >= 1 ? c.d.data() : nullptr; al.hes = mode >= 2 ? c.h.data() : nullptr;
-  std::vector<char> digc; if (dig) { digc = *dig; al.dig = digc.data(); }
+  std::vector<char> digc; if (dig) { digc = *dig; al.dig = digc.data();
+    // entries for arguments declared constant are not written by the bindings (and must not look "unset" to their NaN check)
+    for (int i = 0; i < n; ++i) if (digc[i]) c.d[i] = 0;
+    for (int i = 0; i < n; ++i) for (int j = i; j < n; ++j) if (digc[i] || digc[j]) c.h[i * (2 * n - i - 1) / 2 + j] = 0; }
   al.funcinfo = (Char*)r.info; al.AE = &g_ae; al.TMI = &g_tmi;
   { std::string d = r.name + "("; for (size_t i = 0; i < x.size(); ++i) d += (i ? ", " : "") + vf::jnum(x[i]); d += ") mode " + std::to_string(mode); snprintf(g_current, sizeof g_current, "%s", d.c_str()); }
   alarm(8); c.value = r.f(&al); alarm(0);
@@ -78,14 +81,14 @@ int main(int argc, char** argv) {
   signal(SIGALRM, on_alarm);
   funcadd_ASL(&g_ae);
   if (A.has("--list")) { for (auto& f : g_funcs) printf("%s %d %d\n", f.name.c_str(), f.type, f.nargs); return 0; }
-  int per_case = atoi(A.get("--vectors", "6").c_str());
+  int per_case = atoi(A.get("--vectors", "9").c_str());
   for (long cs = A.from; cs < A.to; ++cs) {
     vf::begin_case(cs);
     vf::Rng r(A.seed, (uint64_t)cs);
     const Reg& F = g_funcs[cs % g_funcs.size()];
     std::map<std::string, std::pair<long, std::string>> bad; long calls = 0, dchecks = 0, d2checks = 0, inconclusive = 0, errors_reported = 0, deriv_errors = 0, agree = 0;
     auto fail = [&](const std::string& k, const std::string& d) { auto& e = bad[k]; if (!e.first++) e.second = d; };
-    auto at_point = [&](const std::vector<double>& x, int skip) { std::string o; for (size_t k = 0; k < x.size(); ++k) if ((int)k != skip && x[k] == std::floor(x[k])) o += "@x" + std::to_string(k) + "=" + vf::jnum(x[k]); return o.empty() ? std::string("@generic-point") : o; };
+    auto at_point = [&](const std::vector<double>& x, int skip) { std::string o; for (size_t k = 0; k < x.size(); ++k) if ((int)k != skip && x[k] == std::floor(x[k])) o += "@x" + std::to_string(k) + "=" + vf::jnum(x[k]); if (!o.empty()) return o; std::string sg; for (double xv : x) sg += xv > 0 ? '+' : xv < 0 ? '-' : '0'; return std::string("@generic-point:signs=") + sg; };
     auto show = [&](const std::vector<double>& x) { std::string s = F.name + "("; for (size_t i = 0; i < x.size(); ++i) s += (i ? ", " : "") + vf::jnum(x[i]); return s + ")"; };
     if (F.type == FUNCADD_STRING_VALUED) {
       arglist al; memset(&al, 0, sizeof al); al.AE = &g_ae; al.TMI = &g_tmi; const char* s = ((const char* (*)(arglist*))F.f)(&al); ++calls;
@@ -93,11 +96,14 @@ int main(int argc, char** argv) {
     } else for (int v = 0; v < per_case; ++v) {
       int n = F.nargs; std::vector<double> x(n);
       int style = (int)r.below(4); if (F.type == FUNCADD_RANDOM_VALUED && style >= 2 && !r.chance(1, 8)) style = (int)r.below(2);   // 0: all regular, 1: first arg integer-like, 2: mixed with one hostile, 3: all hostile
+      if (v < 4) style = 1;       // systematic part: orders/indices 0,1,2,3 in the first argument (special-cased in many bindings)
       for (int i = 0; i < n; ++i) { int cls = style == 0 ? 0 : style == 1 ? (i == 0 ? 1 : 0) : style == 2 ? ((int)r.below(n) == i ? 2 : (int)r.below(2)) : 2; x[i] = pool_value(r, cls); }
-      if (style == 1 && r.chance(1, 2) && n > 1) { size_t k = r.below(n); x[k] = pool_value(r, 1); }
+      if (v < 4 && n > 0) x[0] = v;
+      else if (style == 1 && r.chance(1, 2) && n > 1) { size_t k = r.below(n); x[k] = pool_value(r, 1); }
       bool random_valued = F.type == FUNCADD_RANDOM_VALUED;
       for (int mode = 0; mode < 3; ++mode) {
         std::vector<char> dig(n, 0); bool use_dig = n > 0 && r.chance(1, 3); if (use_dig) for (auto& d : dig) d = (char)r.below(2);
+        if (v < 4 && n > 1) { use_dig = true; std::fill(dig.begin(), dig.end(), 0); dig[0] = 1; }   // the order is a constant (bindings refuse to differentiate it), the rest is differentiated
         if (random_valued && g_seed_setter) g_seed_setter(g_seed_data, 12345);
         Call c1 = call(F, x, mode, use_dig ? &dig : nullptr); ++calls;
         if (random_valued && g_seed_setter) g_seed_setter(g_seed_data, 12345);
@@ -106,6 +112,7 @@ int main(int argc, char** argv) {
         bool det = same_bits(c1.value, c2.value) && c1.has_err == c2.has_err && c1.err == c2.err;
         if (!c1.has_err && mode >= 1) for (int i = 0; i < n; ++i) if (!same_bits(c1.d[i], c2.d[i])) det = false;
         if (!det) fail(std::string("nondeterministic") + (random_valued ? ":after-reseeding" : ""), show(x) + " mode " + std::to_string(mode));
+        if (getenv("GSL_MON_DEBUG")) fprintf(stderr, "DBG %s mode %d dig %d v %d err=%s value=%g\n", show(x).c_str(), mode, (int)use_dig, v, c1.has_err ? c1.err.c_str() : "-", c1.value);
         if (c1.has_err) { ++errors_reported; if (c1.err[0] == '\'' || c1.err[0] == '"') ++deriv_errors; if (c1.err.size() <= 1) fail("empty-error-message", show(x)); continue; }
         // no error reported: nothing may be NaN
         if (std::isnan(c1.value)) { fail("NaN-value-without-error", show(x)); continue; }
@@ -119,22 +126,30 @@ int main(int argc, char** argv) {
           if (use_dig && dig[i]) continue;
           auto check_at = [&](const std::vector<double>& xx, int order, int jcol, int& verdict) {
             // verdict: 1 agree, 0 disagree, -1 inconclusive; order 1: d f/dx_i ; order 2: d (df/dx_jcol) / dx_i
-            Call cc = call(F, xx, order == 1 ? 1 : 2, nullptr); ++calls;
+            Call cc = call(F, xx, order == 1 ? 1 : 2, use_dig ? &dig : nullptr); ++calls;
             if (cc.has_err) { verdict = -1; return; }
             int lo = std::min(i, jcol), hi = std::max(i, jcol), nn = (int)xx.size(); double analytic = order == 1 ? cc.d[i] : cc.h[lo * (2 * nn - lo - 1) / 2 + hi];   // upper triangle by rows, as test/gsl-test.cc indexes it
-            auto g = [&](double t, double& out) { std::vector<double> y = xx; y[i] = t; Call q = call(F, y, order == 1 ? 0 : 1, nullptr); ++calls; if (q.has_err) return false; out = order == 1 ? q.value : q.d[jcol]; return std::isfinite(out); };
-            double num, err; double h0 = 0.05 * std::max(0.1, std::fabs(xx[i]));
-            if (!ridders(g, xx[i], h0, num, err) || !std::isfinite(num) || !std::isfinite(analytic)) { verdict = -1; return; }
-            double s = std::max(std::fabs(analytic), std::fabs(num));
-            if (err > 0.1 * std::max(s, 1e-8)) { verdict = -1; return; }
-            verdict = std::fabs(analytic - num) <= 1e-3 * s + 1000 * err + 1e-8 ? 1 : 0;
+            auto g = [&](double t, double& out) { std::vector<double> y = xx; y[i] = t; Call q = call(F, y, order == 1 ? 0 : 1, use_dig ? &dig : nullptr); ++calls; if (q.has_err) return false; out = order == 1 ? q.value : q.d[jcol]; return std::isfinite(out); };
+            // three step scales: a singularity or a kink closer than the first step (e.g. legendre_Q1 at 1.0014) makes the extrapolation converge to
+            // a wrong value with a small error estimate; a genuine derivative error disagrees at every scale
+            if (!std::isfinite(analytic)) { verdict = -1; return; }
+            int best = -1;
+            for (double scale : {1.0, 1e-2, 1e-4}) {
+              double num, err; double h0 = scale * 0.05 * std::max(0.1, std::fabs(xx[i]));
+              if (!ridders(g, xx[i], h0, num, err) || !std::isfinite(num)) continue;
+              double s = std::max(std::fabs(analytic), std::fabs(num));
+              if (err > 0.1 * std::max(s, 1e-8)) continue;
+              if (std::fabs(analytic - num) <= 1e-3 * s + 1000 * err + 1e-8) { best = 1; break; }
+              best = 0;
+            }
+            verdict = best;
           };
           int v0; check_at(x, 1, 0, v0); ++dchecks;
           if (v0 == -1) ++inconclusive; else if (v0 == 1) ++agree;
           else { // reproduce at neighbouring points
             std::vector<double> xa = x, xb = x; xa[i] *= 1 + 1e-3; xb[i] *= 1 - 1e-3; if (x[i] == 0) { xa[i] = 1e-3; xb[i] = -1e-3; }
             int va, vb; check_at(xa, 1, 0, va); check_at(xb, 1, 0, vb);
-            if ((va == 0) + (vb == 0) >= 1) { Call cc = call(F, x, 1, nullptr); fail("first-derivative-disagrees-with-numerical-differentiation:" + F.name + ":d/dx" + std::to_string(i) + at_point(x, i), show(x) + " d/dx" + std::to_string(i) + " analytic " + vf::jnum(cc.d[i])); }
+            if ((va == 0) + (vb == 0) >= 1) { Call cc = call(F, x, 1, use_dig ? &dig : nullptr); fail("first-derivative-disagrees-with-numerical-differentiation:" + F.name + ":d/dx" + std::to_string(i) + at_point(x, i), show(x) + " d/dx" + std::to_string(i) + " analytic " + vf::jnum(cc.d[i])); }
             else ++inconclusive;
           }
           if (mode >= 2) for (int j = 0; j < n; ++j) {
